@@ -52,8 +52,9 @@ func register(name string, fn func(c *Ctx, w *LeanFile) error) {
 
 // LeanFile accumulates one generated module Uquic.Generated.<Name>.
 type LeanFile struct {
-	Name string
-	b    strings.Builder
+	Name    string
+	Imports []string // Lean modules the generated module imports (written before the namespace)
+	b       strings.Builder
 }
 
 func (w *LeanFile) P(format string, args ...any) { fmt.Fprintf(&w.b, format+"\n", args...) }
@@ -78,9 +79,10 @@ func (c *Ctx) Load(rel string) (*Pkg, error) {
 		files = append(files, af)
 	}
 	info := &types.Info{
-		Types: map[ast.Expr]types.TypeAndValue{},
-		Defs:  map[*ast.Ident]types.Object{},
-		Uses:  map[*ast.Ident]types.Object{},
+		Types:      map[ast.Expr]types.TypeAndValue{},
+		Defs:       map[*ast.Ident]types.Object{},
+		Uses:       map[*ast.Ident]types.Object{},
+		Selections: map[*ast.SelectorExpr]*types.Selection{},
 	}
 	conf := types.Config{Importer: c.imp, Error: func(error) {}}
 	path := modPath
@@ -216,9 +218,6 @@ func main() {
 	rc := 0
 	for _, e := range extractors {
 		w := &LeanFile{Name: e.name}
-		w.P("-- GENERATED by /verif/gofacts from %s — do not edit; regenerated on every check run.", *repo)
-		w.P("namespace Uquic.Gen.%s", e.name)
-		w.P("")
 		if err := e.fn(c, w); err != nil {
 			// A missing fact must break the dependent proofs, not be papered over:
 			// write the error into the file so the Lean build fails visibly.
@@ -228,7 +227,12 @@ func main() {
 		}
 		w.P("")
 		w.P("end Uquic.Gen.%s", e.name)
-		if err := os.WriteFile(filepath.Join(*out, e.name+".lean"), []byte(w.b.String()), 0o644); err != nil {
+		head := fmt.Sprintf("-- GENERATED by /verif/gofacts from %s — do not edit; regenerated on every check run.\n", *repo)
+		for _, im := range w.Imports {
+			head += "import " + im + "\n"
+		}
+		head += fmt.Sprintf("namespace Uquic.Gen.%s\n\n", e.name)
+		if err := os.WriteFile(filepath.Join(*out, e.name+".lean"), []byte(head+w.b.String()), 0o644); err != nil {
 			fmt.Fprintln(os.Stderr, err)
 			os.Exit(2)
 		}
